@@ -7,6 +7,12 @@ def main():
     ctx = vlib.Ctx("setup", "quick", 0)
     bad = 0
     def sany(f):
+        if "Apalache" in open(f).read().split("EXTENDS", 1)[-1].split("\n", 1)[0]:
+            # a module for Apalache (its Apalache.tla lives inside the Apalache distribution): type-checked by apalache-mc itself
+            if not shutil.which("apalache-mc"):
+                return f, False, "apalache-mc not installed: module skipped"
+            p = subprocess.run(["timeout", "300", "apalache-mc", "typecheck", "--out-dir=" + ctx.path("apalache_tc"), f], capture_output=True, text=True, cwd=ctx.work)
+            return f, "EXITCODE: OK" not in p.stdout, p.stdout[-600:]
         p = subprocess.run(["java", "-cp", vlib.TLA_CP, "tla2sany.SANY", os.path.basename(f)], cwd=vlib.SPEC, capture_output=True, text=True)
         return f, ("Semantic errors" in p.stdout or "error" in p.stdout.lower() and "Parsing or semantic" in p.stdout or p.returncode != 0), p.stdout[-600:]
     for f, err, out in vlib.pmap(sany, sorted(glob.glob(os.path.join(vlib.SPEC, "*.tla")))):
